@@ -67,13 +67,12 @@ Lemma pe_cc_adj r : cc_adj (prepare_edges r) = cc_adj r. Proof. step_proj prepar
 Lemma pe_cf_elem r : cf_elem (prepare_edges r) = cf_elem r. Proof. step_proj prepare_edges. Qed.
 Lemma pe_cf_adj r : cf_adj (prepare_edges r) = cf_adj r. Proof. step_proj prepare_edges. Qed.
 
-(* whichever branch is taken: the surviving edges, keyified, in order *)
-Lemma pe_edges r : edges (prepare_edges r) = filter (evalid (zlen (vertices r))) (map kedge (edges r)).
+(* whichever branch is taken: the surviving edges, keyified, each pair once, in order of first declaration *)
+Lemma pe_edges r : edges (prepare_edges r) = norm_edges (zlen (vertices r)) (edges r).
 Proof.
-  unfold prepare_edges. set (N := zlen (vertices r)).
-  rewrite filter_map_comm.
-  rewrite (filter_ext_in' (fun x => evalid N (kedge x)) (evalid N)) by (intros; apply evalid_kedge).
-  destruct (existsb _ (edges r)) eqn:E; cbn; [reflexivity|]. now rewrite (filter_all _ _ E).
+  unfold prepare_edges, norm_edges. set (N := zlen (vertices r)). rewrite <- sel_from_spec.
+  destruct (edges_dropped N (edges r)) eqn:E; cbn; [reflexivity|].
+  apply edges_dropped_false in E. now rewrite (proj1 (sel_from_full _ _ _ E)).
 Qed.
 
 (* corner generators *)
@@ -163,7 +162,7 @@ Qed.
 
 Lemma prepare_fields c r r' : prepare c r = Ok r' ->
   vertices r' = map prep_vertex (vertices r) /\ cells r' = cells r /\ faces r' = faces r ++ added_faces c r /\
-  edges r' = filter (evalid (zlen (vertices r))) (map kedge (edges r ++ added_edges c r)).
+  edges r' = norm_edges (zlen (vertices r)) (edges r ++ added_edges c r).
 Proof.
   rewrite prepare_unfold. intros H. apply gcf_fields in H.
   destruct H as (Hv & He & _ & Hf & _ & _ & Hc & _). unfold stage5 in *.
